@@ -26,8 +26,14 @@ def strategy(tier):
     @st.composite
     def s(draw):
         spec = draw(gen.dataset(max_inputs=3, clim=True, flavor="mix", core_max=3, extra_max=1, max_members=2))
-        return {"spec": spec, "clim_type": draw(st.sampled_from(["subtract", "divide"])),
+        case = {"spec": spec, "clim_type": draw(st.sampled_from(["subtract", "divide"])),
                 "axes": draw(st.lists(st.sampled_from(gen.AXES_FOR_SCORES), min_size=2, max_size=3, unique=True))}
+        if draw(st.sampled_from([False, False, True])):
+            # -obsrange together with -c/-C: the range is a condition on the observation itself, not on its anomaly
+            vals = sorted(set(v for d in spec["inputs"] if d.get("obs") for pl in d["obs"] for row in pl for v in row if v is not None)) or [0.0]
+            a, b = draw(st.sampled_from(vals)), draw(st.sampled_from(vals))
+            case["obs_range"] = [min(a, b), max(a, b)]
+        return case
     return s()
 
 
@@ -50,6 +56,9 @@ def check_api(case, ctx):
     if "axes" not in case:
         case = dict(case, axes=[case["axis"]] if case.get("axis") not in (None, "all") else ["no", "time", "location"])
     opts = {"clim_type": case["clim_type"]}
+    if case.get("obs_range"):
+        opts["obs_range"] = case["obs_range"]
+        ctx.label("with-obsrange")
     ds = model.DS(spec, opts)
     ctx.label("clim_type=" + case["clim_type"])
     try:
@@ -68,8 +77,8 @@ def check_api(case, ctx):
     if case["clim_type"] == "divide" and any(v == 0 for pl in spec["clim"]["fcst"] for row in pl for v in row if v is not None):
         ctx.label("clim_has_zero")
     menu = gen.common_menu(spec)
-    dscheck.check_slices(ctx, ID, spec, ds, data, menu, case["axes"], extra={"clim_type": case["clim_type"]})
-    dscheck.check_all_axis(ctx, ID, spec, ds, menu[:4], lambda: mat.make_data(spec, opts), extra={"clim_type": case["clim_type"]})
+    dscheck.check_slices(ctx, ID, spec, ds, data, menu, case["axes"], extra=dict({"clim_type": case["clim_type"]}, **({"obs_range": case["obs_range"]} if case.get("obs_range") else {})))
+    dscheck.check_all_axis(ctx, ID, spec, ds, menu[:4], lambda: mat.make_data(spec, opts), extra=dict({"clim_type": case["clim_type"]}, **({"obs_range": case["obs_range"]} if case.get("obs_range") else {})))
     # the same requests on an object that has already served whole-array requests (what the driver does
     # when it derives default thresholds): the climatology must not be applied twice
     import verif.axis
@@ -77,7 +86,7 @@ def check_api(case, ctx):
     for i in range(len(spec["inputs"])):
         data2.get_scores(mat.vfield(("obs",)), i, verif.axis.All(), None)
         data2.get_scores(mat.vfield(("fcst",)), i, verif.axis.All(), None)
-    dscheck.check_slices(ctx, ID + "/after-all-axis", spec, ds, data2, menu[:3], case["axes"][:2], extra={"clim_type": case["clim_type"]})
+    dscheck.check_slices(ctx, ID + "/after-all-axis", spec, ds, data2, menu[:3], case["axes"][:2], extra=dict({"clim_type": case["clim_type"]}, **({"obs_range": case["obs_range"]} if case.get("obs_range") else {})))
     # not-scored
     n_in = len(spec["inputs"])
     names = [d["name"] for d in spec["inputs"]]
